@@ -120,9 +120,9 @@ static rc::Gen<Case> genCase() {
                       {"max_inner_pressure", *rc::gen::oneOf(rc::gen::element<std::string>("INF", "inf", "Inf"), genNumber(false))},
                       {"area_elasticity_modulus", *genNumber(false)},
                       {"avg_division_volume", *rc::gen::oneOf(rc::gen::element<std::string>("INF", "inf", "Inf"), genNumber(false))},
-                      {"std_division_volume", *genNumber(false)},
+                      {"std_division_volume", *genNumber(true)},
                       {"avg_growth_rate", *genNumber(false)},
-                      {"std_growth_rate", *genNumber(false)},
+                      {"std_growth_rate", *genNumber(true)},
                       {"target_isoperimetric_ratio", *genNumber(true)},
                       {"angle_regularization_factor", *genNumber(false)},
                       {"min_vol", *genNumber(false)},
@@ -214,7 +214,7 @@ static std::string run(const Case& k, vf::Ctx& ctx) {
     };
     static const Con cons[] = {{0, "simulation_duration", true}, {0, "time_step", true}, {0, "sampling_period", true}, {0, "min_edge_length", true},
                                {0, "contact_cutoff_adhesion", true}, {0, "contact_cutoff_repulsion", true}, {0, "damping_coefficient", false},
-                               {1, "target_isoperimetric_ratio", true}, {2, "surface_tension", false}, {2, "adherence_strength", false},
+                               {1, "target_isoperimetric_ratio", true}, {1, "std_growth_rate", false}, {1, "std_division_volume", false}, {2, "surface_tension", false}, {2, "adherence_strength", false},
                                {2, "repulsion_strength", false}, {2, "bending_modulus", false}, {2, "global_face_id", false}};
     if (k.mut == 2 || k.mut == 3) {
         const Con& c = cons[k.ti % (sizeof cons / sizeof cons[0])];
